@@ -48,6 +48,9 @@
 #include <ctype.h>
 #include <signal.h>
 #include <sys/socket.h>
+#include <sys/ioctl.h>
+#include <linux/sockios.h>
+#include <sched.h>
 #include <netinet/in.h>
 #include <arpa/inet.h>
 #include <sanitizer/asan_interface.h>
@@ -59,10 +62,13 @@
 
 static ssize_t hd_recvfrom(int fd, void *buf, size_t n, int fl, struct sockaddr *sa, socklen_t *sl);
 static void hd_rng_bytes(void *buf, size_t n);
+static ssize_t hd_sendto(int fd, const void *buf, size_t n, int fl, const struct sockaddr *sa, socklen_t sl);
 #define recvfrom hd_recvfrom
+#define sendto hd_sendto
 #define evutil_secure_rng_get_bytes hd_rng_bytes
 #include "evdns.c"
 #undef recvfrom
+#undef sendto
 #undef evutil_secure_rng_get_bytes
 #undef log
 #undef MIN
@@ -153,6 +159,20 @@ struct fsrv {
 	struct trule tr[MAXRULE]; int ntr, tpos;
 };
 static struct fsrv srv[NSRV];
+/* Loopback delivery is normally synchronous but the kernel may defer it (ksoftirqd under load).  The idle point
+ * must not depend on that: count what the library sent to each fake nameserver against what the harness read,
+ * and look at the kernel queues (FIONREAD / SIOCOUTQ) before declaring the network quiet. */
+static long g_lib_udp_sent[NSRV], g_srv_udp_read[NSRV];
+int __real_ioctl(int, unsigned long, void *);
+static ssize_t hd_sendto(int fd, const void *buf, size_t n, int fl, const struct sockaddr *sa, socklen_t sl)
+{
+	ssize_t r = sendto(fd, buf, n, fl, sa, sl);
+	if (r >= 0 && sa && sa->sa_family == AF_INET) {
+		int i, port = ntohs(((const struct sockaddr_in *)sa)->sin_port);
+		for (i = 0; i < NSRV; i++) if (srv[i].port == port) g_lib_udp_sent[i]++;
+	}
+	return r;
+}
 
 struct delayed { int64_t due; int s, alt; unsigned char *msg; int len; struct sockaddr_in to; struct delayed *next; };
 static struct delayed *g_delayed;
@@ -276,6 +296,22 @@ static void reset_servers(void)
 static void send_udp(int si, int alt, const unsigned char *msg, int len, const struct sockaddr_in *to)
 {
 	ssize_t r = sendto(alt ? srv[si].alt : srv[si].udp, msg, (size_t)len, 0, (const struct sockaddr *)to, sizeof(*to));
+	if (r > 0 && g_dns) {
+		/* find the library socket the datagram is addressed to and wait until the kernel has queued it there */
+		struct nameserver *ns = g_dns->server_head, *ns0 = ns;
+		int spins = 0;
+		while (ns) {
+			struct sockaddr_in me; socklen_t ml = sizeof(me);
+			if (ns->socket >= 0 && getsockname(ns->socket, (struct sockaddr *)&me, &ml) == 0 && me.sin_port == to->sin_port) {
+				int q = 0;
+				while (__real_ioctl(ns->socket, FIONREAD, &q) == 0 && q == 0 && spins++ < 20000) sched_yield();
+				if (spins) vh_stat_add("delivery_waits", 1);
+				break;
+			}
+			ns = ns->next;
+			if (ns == ns0) break;
+		}
+	}
 	printf("SENT %d udp%s %lld %d ", si, alt ? "-alt" : "", (long long)now_rel(), (int)r);
 	puthex(msg, len > 0 ? len : 0); putchar('\n');
 	vh_stat(alt ? "replies_udp_wrong_source" : "replies_udp");
@@ -311,6 +347,7 @@ static int service_all(void)
 			ssize_t r = recvfrom(s->udp, buf, sizeof(buf), 0, (struct sockaddr *)&from, &fl);
 			if (r < 0) break;
 			did++;
+			g_srv_udp_read[i]++;
 			vh_stat("queries_udp");
 			printf("Q %d udp %lld ", i, (long long)now_rel()); puthex(buf, (int)r); putchar('\n');
 			memcpy(s->lastq, buf, (size_t)r); s->lastq_len = (int)r; s->from = from; s->have_from = 1;
@@ -398,9 +435,37 @@ static int service_all(void)
 }
 
 /* ------------------------------------------------------------------ stepping */
+/* anything still travelling between the library and the fake nameservers? */
+static int net_pending(void)
+{
+	int i, k, q;
+	for (i = 0; i < NSRV; i++) {
+		if (g_lib_udp_sent[i] != g_srv_udp_read[i]) return 1;
+		for (k = 0; k < MAXCONN; k++) if (srv[i].c[k].fd >= 0) {
+			q = 0;
+			if (__real_ioctl(srv[i].c[k].fd, SIOCOUTQ, &q) == 0 && q > 0) return 1;
+		}
+	}
+	if (g_dns && g_dns->server_head) {
+		struct nameserver *ns = g_dns->server_head;
+		do {
+			struct tcp_connection *c = ns->connection;
+			if (c && c->bev) {
+				int fd = bufferevent_getfd(c->bev);
+				if (c->state == TS_CONNECTING) return 1;
+				if (fd >= 0) {
+					q = 0;
+					if (__real_ioctl(fd, SIOCOUTQ, &q) == 0 && q > 0) return 1;
+				}
+			}
+			ns = ns->next;
+		} while (ns != g_dns->server_head);
+	}
+	return 0;
+}
 static void settle(void)
 {
-	int rounds = 0, quiet = 0;
+	int rounds = 0, quiet = 0, waits = 0;
 	if (!g_evb) return;
 	while (quiet < 3 && rounds < 5000) {
 		long cb0 = g_ncb_any;
@@ -408,8 +473,16 @@ static void settle(void)
 		event_base_loop(g_evb, EVLOOP_NONBLOCK);
 		p = service_all();
 		if (g_ncb_any == cb0 && p == 0 && event_base_get_num_events(g_evb, EVENT_BASE_COUNT_ACTIVE) == 0) quiet++; else quiet = 0;
+		if (quiet >= 3 && waits < 4000 && net_pending()) {
+			/* the kernel has not delivered everything yet (or a connect is in progress): not idle */
+			quiet = 0; waits++;
+			if (waits > 50) usleep(100); else sched_yield();
+			continue;
+		}
 		rounds++;
 	}
+	if (waits) vh_stat_add("idle_waited_for_kernel", 1);
+	if (waits >= 4000) vh_stat_add("idle_gave_up_waiting", 1);
 	if (rounds >= 5000) { printf("STUCK %lld\n", (long long)now_rel()); vh_stat("stuck"); }
 }
 static void tick_cb(evutil_socket_t fd, short what, void *arg) { (void)fd; (void)what; (void)arg; }
@@ -675,13 +748,13 @@ static void run_cmd(char *line, int in_cb)
 	}
 }
 
-/* CPU-time (not wall-clock) watchdog: a single case normally costs milliseconds; 40 s of process CPU inside one
+/* CPU-time (not wall-clock) watchdog: a single case normally costs milliseconds; 15 s of process CPU inside one
  * case is a livelock in the code under test (e.g. an unbounded compression-pointer walk). */
 void __sanitizer_print_stack_trace(void);
 static void cpu_watchdog(int sig)
 {
 	char buf[160];
-	int n = snprintf(buf, sizeof(buf), "\nVIOL hang:cpu-watchdog case=%ld no progress after 40 s of CPU time inside one case\n", vh_cur_case);
+	int n = snprintf(buf, sizeof(buf), "\nVIOL hang:cpu-watchdog case=%ld no progress after 15 s of CPU time inside one case\n", vh_cur_case);
 	(void)sig;
 	if (n > 0) { ssize_t w = __real_write(1, buf, (size_t)n); (void)w; }
 	n = snprintf(buf, sizeof(buf), "\nATCASE %ld cpu-watchdog\n", vh_cur_case);
@@ -693,7 +766,7 @@ static void arm_watchdog(void)
 {
 	struct itimerval it;
 	memset(&it, 0, sizeof(it));
-	it.it_value.tv_sec = 40;
+	it.it_value.tv_sec = 15;
 	setitimer(ITIMER_PROF, &it, NULL);
 }
 static long g_mf_base;
@@ -712,6 +785,7 @@ static void case_begin(long idx)
 	vh_rng_seed(&g_rng, vh_mix64(vh_opt.seed) ^ (uint64_t)idx);
 	g_mf_base = mf_live_blocks;
 	g_poison_p = NULL;
+	memset(g_lib_udp_sent, 0, sizeof(g_lib_udp_sent)); memset(g_srv_udp_read, 0, sizeof(g_srv_udp_read));
 	printf("CASE %ld\n", idx);
 }
 static void case_end(void)
